@@ -2,6 +2,7 @@
 import sys, math
 from fractions import Fraction as Fr
 from common import *  # noqa
+sys.path.insert(0, os.path.join(VERIF, 'translate')); import cores  # noqa: E402
 
 PID = 'C14'
 TOL = 1e-12
@@ -924,7 +925,12 @@ def main():
                        'matrices have an empty diagonal; exact comparisons use integer or dyadic weights',
                        'entropy-valued outputs (diversity_coef_sign, partition_distance) are compared at 1e-12 after recomputing log in Python from the model\'s exact rational ingredients']
     ck.trusted = TRUSTED_DEFAULT + ['Python float log/sqrt applied to the model\'s exact ingredients for z-score, diversity and partition_distance']
+    # T-gen source pins (translate/cores.py): rename-tolerant normalised bodies of the routines this check covers that have no interpreted tie
+    ck.cov['cores'] = cores.generate(families=['pinpart', 'pinmod', 'modq'])
+    for p_ in ck.cov['cores']['problems']:
+        ck.corr_break('core extractor (translate/cores.py)', p_)
     ok = ck.lean_gate(['BctVerif.Props.C14'], extra_modules=[MODEL])
+    ck.lean_gate([], gen_modules=['BctVerif.Gen.CoresPinPart', 'BctVerif.Gen.CoresPinMod', 'BctVerif.Gen.CoresMod'])
     if ck.tier == 'thorough' and ok:
         ck.leanchecker(['BctVerif.Props.C14', MODEL])
     rs = ck.rs
